@@ -1,4 +1,5 @@
 import XmppVerif.Drv.Core
+import XmppVerif.Drv.Neg
 import XmppVerif.Spec.C14
 /-
 Driver plug-in for C14.
@@ -74,5 +75,17 @@ def step (_ : Unit) (fields : List String) (impl : String) : Unit × Drv.Reply :
     | none => ((), Drv.Reply.bad)
   | _ => ((), Drv.Reply.bad)
 
-def handler : Handler := ⟨Unit, fun _ => (), step⟩
+/-- cases whose variant starts with `neg` are whole negotiations (real `NewSession` against a scripted server),
+judged against the negotiation model with the session-level oracle of C14 -/
+def initAll (fields : List String) : Option Neg.DSt :=
+  match fields with
+  | "neg" :: rest => some (Neg.init rest)
+  | _ => none
+
+def stepAll (s : Option Neg.DSt) (fields : List String) (impl : String) : Option Neg.DSt × Drv.Reply :=
+  match s with
+  | some d => let (d', r) := Neg.stepWith .c14 d fields impl; (some d', r)
+  | none => (none, (step () fields impl).2)
+
+def handler : Handler := ⟨Option Neg.DSt, initAll, stepAll⟩
 end XmppVerif.Drv.C14
